@@ -48,12 +48,32 @@ def run(STATUS, write_if_changed, ROOT, REPO):
             raise ValueError('no radius ("r") found in _kdtree_leven')
         out.append('Definition gen_radius (k : float) : float := %s.' % fexpr(expr))
         out.append('Definition gen_radius_known : bool := true.')
+        # every option handed to query_ball_point (through the params dict and / or keywords): the query is the exact Euclidean ball
+        # iff no approximation (eps) and no other norm (p) is requested; workers / return_sorted do not change the set
+        opts = {}
+        for node in ast.walk(fn):
+            if isinstance(node, ast.Dict) and any(isinstance(k, ast.Constant) and k.value == 'r' for k in node.keys):
+                for k, v in zip(node.keys, node.values):
+                    if not (isinstance(k, ast.Constant) and isinstance(k.value, str)):
+                        raise ValueError('query_ball_point options: non-literal key')
+                    opts[k.value] = v
+            if isinstance(node, ast.Call) and isinstance(node.func, ast.Attribute) and node.func.attr == 'query_ball_point':
+                for kw in node.keywords:
+                    if kw.arg is not None:
+                        opts[kw.arg] = kw.value
+                    elif not isinstance(kw.value, ast.Name):
+                        raise ValueError('query_ball_point(**<expression>)')
+        def lit(v, ok):
+            return isinstance(v, ast.Constant) and not isinstance(v.value, bool) and isinstance(v.value, (int, float)) and v.value in ok
+        exact = all(k in ('r', 'workers', 'return_sorted') or (k == 'eps' and lit(v, (0, 0.0))) or (k == 'p' and lit(v, (2, 2.0))) for k, v in opts.items())
+        out.append('Definition gen_ball_query_exact : bool := %s.   (* options: %s *)' % ('true' if exact else 'false', ', '.join(sorted(opts))))
         STATUS[NAME] = dict(ok=True, properties=PROPS, error=None)
     except Exception as e:
         # DESIGN.md 1.5: expression outside the subset / anchor moved -> committed snapshot (np.sqrt(2) * max_edits), recorded;
         # the tie for the radius on this run is the kdtree correspondence (boundary families exactly on the radius, k up to 64)
         out.append('Definition gen_radius (k : float) : float := (PrimFloat.mul (PrimFloat.sqrt (of_uint63 2%uint63)) k).')
         out.append('Definition gen_radius_known : bool := false.')
+        out.append('Definition gen_ball_query_exact : bool := true.')
         STATUS[NAME] = dict(ok=True, snapshot=True, properties=PROPS,
                             error='regen unavailable (%s): committed snapshot used, tie by correspondence' % repr(e)[:200])
     write_if_changed(os.path.join(ROOT, 'coq/gen/Gen_c04.v'), '\n'.join(out) + '\n')
